@@ -113,16 +113,9 @@ func diffSig(a, b inputSig) (onlyA, onlyB []string) {
 			onlyB = append(onlyB, k)
 		}
 	}
-	for k := range a.globals {
-		if !b.globals[k] {
-			onlyA = append(onlyA, "table "+k)
-		}
-	}
-	for k := range b.globals {
-		if !a.globals[k] {
-			onlyB = append(onlyB, "table "+k)
-		}
-	}
+	// which literal tables a route goes through is not an input: one sibling may index XUN by the pillar
+	// indices while the other builds the pillar string from GAN and ZHI and searches for it (what the tables
+	// hold and that lookups stay inside them is C08/C18)
 	sort.Strings(onlyA)
 	sort.Strings(onlyB)
 	return
